@@ -248,7 +248,9 @@ def one_mesh(ctx, k, kind):
                 c = int(np.asarray(c).ravel()[0])
                 ok_index = 0 <= c < loc.nt
                 viol = loc.violation(c, x, float(hcell[c])) if ok_index else 1.0
-                ctx.check("located-cell-contains-point", ok_index and viol <= 1e-9, mech=f"wrong-cell:{kind}",
+                # 1e-9 of the cell size, or the rounding level of the coordinates themselves (64 eps |x|) if that is larger
+                allowed = 1e-9 + 64 * 2.2e-16 * float(np.abs(x).max()) / float(hcell[c]) if ok_index else 0.0
+                ctx.check("located-cell-contains-point", ok_index and viol <= allowed, mech=f"wrong-cell:{kind}",
                           point=x, cls=cls, returned=c, exact_containing=cont[:4], outside_by=viol, **tag)
             if len(cont) >= 2 or cls in ("vertex", "facet"):
                 ctx.nontrivial(type(mesh).__name__, cls, "located" if raised is None else "raised")
